@@ -187,6 +187,28 @@ def run_sitebatch_case(ctx, case):
             r = sb.search(s)
             ctx.check("sitebatch.search", r == i, "SiteBatch|search", case,
                       {"site": s, "expected": i, "got": r})
+    # the same object asked again after its number of batches was changed (public
+    # attribute): contents and search follow the new partition
+    n = len(ids)
+    for k2 in sorted({1, n, max(1, k // 2), min(n, k + 1), min(n, 2 * k)} - {k})[:3]:
+        ctx.tag("sitebatch:nbatch-changed-after-use")
+        ctx.api("SiteBatch")
+        try:
+            sb.nbatch = k2
+            content2 = [sb[i] for i in range(k2)]
+        except Exception as e:
+            ctx.extra["sitebatch-nbatch-not-assignable:" + type(e).__name__] += 1
+            break
+        flat2 = [s_ for b in content2 for s_ in b]
+        sizes = [len(b) for b in content2]
+        ctx.check("sitebatch.partition", flat2 == list(ids) and max(sizes) - min(sizes) <= 1,
+                  "SiteBatch|partition|after-nbatch-changed", case,
+                  {"nbatch": k2, "sizes": sizes[:10]})
+        badr = [(s_, i, sb.search(s_)) for i, b in enumerate(content2) for s_ in b
+                if sb.search(s_) != i]
+        ctx.check("sitebatch.search", not badr, "SiteBatch|search|after-nbatch-changed",
+                  case, lambda: {"nbatch_before": k, "nbatch_now": k2,
+                                 "site,batch,search": badr[:5]})
     if k >= 2:
         ctx.nontrivial("sb", ids, k)
 
@@ -275,6 +297,13 @@ def run_opm(ctx):
                         [[1.5, 2.5, 3.5], [4.5]], {"nested": {"deep": [[0], [1, 2]]}}]
                 for nm_ in ("windows", "extra")[:int(rng.integers(1, 3))]:
                     context[nm_] = pool[int(rng.integers(0, len(pool)))]
+        if it % 4 == 1 and opts:
+            # a context item named like one of the options (the run's own "month" next
+            # to the option "month"): the option is what tasks and searches are about
+            k0 = list(opts.keys())[it // 4 % len(opts)]
+            v0 = as_list(opts[k0])
+            context[k0] = [v0[0], v0[-1], "other", 12345][it // 8 % 4]
+            ctx.tag("opm:context-item-named-like-an-option")
         rename = None
         if rng.random() < 0.3:
             rename = {"context_name": "config", "task_options_name": "opts",
@@ -336,7 +365,8 @@ def run_opm_case(ctx, case):
         t = opm.get_task(tid)
         ctx.api("get_task")
         got.append({k: t[k] for k in keys})
-        ctx.check("opm.task-context", all(t[k] == v for k, v in context.items()),
+        ctx.check("opm.task-context", all(t[k] == v for k, v in context.items()
+                                          if k not in keys),
                   "OptionManager|task-context", case, {"taskid": tid})
     ctx.check("opm.ntasks", opm.ntasks == len(expected), "OptionManager|ntasks",
               case, {"ntasks": opm.ntasks, "expected": len(expected)})
